@@ -99,13 +99,13 @@ CHECKS["C02"] = {
             "spelled by ciphertext bytes; packet numbers are concrete sequences here (C16 covers reconstruction over the full range). Bounds in the evidence.",
 }
 CHECKS["C07"] = {
-    "technique": "symbolic execution of the TLS and QUIC pipelines with symbolic MAC/IP addresses, client port and one symbolic capture time per input packet; microsecond round trip decided in a relative-error real-arithmetic model of the timestamp computation recorded from an execution of the real reader on recording variables",
+    "technique": "symbolic execution of the TLS and QUIC pipelines with symbolic MAC/IP addresses, client port and one symbolic capture time per input packet; microsecond round trip decided in a rounding-error (half an ulp per operation) real-arithmetic model of the timestamp computation recorded from an execution of the real reader on recording variables",
     "text": "With all addresses, the client port and every capture time symbolic, and records cut into small segments, z3 shows that "
             "every exported TLS packet is oriented sender -> receiver with the connection's MAC/IP/ports, carries the time of an "
             "input packet that overlapped the same record, and the synthetic handshake the first record's time; for QUIC each "
             "exported datagram carries the direction and time of its input datagram. The reader's timestamp expression (taken from "
             "dpkt_dsb.py by ast) composed with dpkt's writer returns the same microsecond tick for every tick below 2^51.",
-    "note": TRUST + "Models as in C01/C02; capture times are opaque integers inside the pipeline; the float lemma uses |relative error| <= 2^-53 per operation and claims nothing at or above 2^51 microseconds.",
+    "note": TRUST + "Models as in C01/C02; capture times are opaque integers inside the pipeline; the float lemma bounds every rounding by half an ulp of the result's binade and claims nothing at or above 2^51 microseconds.",
 }
 CHECKS["C06"] = {
     "technique": "symbolic execution of OutputBuilder on records of symbolic length (abstract byte strings; floor(n/k) justified by a cvc5-proved floating-point lemma), of main.run on connections whose multi-segment records interleave in every order (an in-file-order receiver checks sequence numbers and acknowledgements), of main.run's writer loop with stub reader/writer, plus strict independent reading of sampled real outputs",
@@ -136,7 +136,7 @@ CHECKS["C18"] = {
     "note": TRUST + "Sets are replaced by a class whose iteration order is solver-chosen among identity, reversal and rotations; reader/writer/file system are stubs; models as in C01/C02.",
 }
 CHECKS["C12"] = {
-    "technique": "symbolic execution of dpkt_dsb.Reader on a block-level model of the pcapng file with symbolic block fields; tick scaling decided in a relative-error real-arithmetic model of the computation recorded from the real reader; main.run -l wiring; concrete container variants through the real program",
+    "technique": "symbolic execution of dpkt_dsb.Reader on a block-level model of the pcapng file with symbolic block fields; tick scaling decided in a rounding-error (half an ulp per operation) real-arithmetic model of the computation recorded from the real reader; main.run -l wiring; concrete container variants through the real program",
     "text": "For both byte orders, EPB and PB, a foreign block of any type at every position and DSBs, with tick words, if_tsresol (all 256 "
             "values) and if_tsoffset symbolic, z3 shows that the reader yields exactly the packet and DSB blocks in order with untouched "
             "payloads, uses the classes and formats of the file's byte order and computes if_tsoffset + ticks / 10^k or 2^k; that an "
